@@ -362,6 +362,26 @@ def r6_antiparallel_branch(chk):
             chk.fail("C11.R6", key, f.where(r), f"the branch returns `{short(e, 60)}` = I - 2 n n^T: a reflection, not a rotation (determinant -1) - the moved fragment is mirrored")
         elif comp:
             chk.ok("C11.R6", key, f.where(r), f"composed of two rotations: {short(e, 70)}")
+            # the two quarter turns chain from the first argument to the second: (v1 -> m) then (m -> v2), m the same direction in both
+            raw = r.value if isinstance(r.value, ast.BinOp) else e
+            p1, p2 = f.params()[0], f.params()[1]
+            if isinstance(raw, ast.BinOp) and all(isinstance(x, ast.Call) and len(x.args) >= 2 for x in (raw.left, raw.right)):
+                a, m1 = norm(raw.left.args[0]), norm(raw.left.args[1])
+                m2, b = norm(raw.right.args[0]), norm(raw.right.args[1])
+                def stands_for(txt, p):
+                    # the parameter itself, or a local computed from it alone (`v1 = np.array(_v1)`, its normalised copy)
+                    if txt == p:
+                        return True
+                    try:
+                        ex = env.expand(ast.parse(txt, mode="eval").body, depth=6)
+                    except SyntaxError:
+                        return False
+                    return (names_in(ex) - {"np", "numpy"}) == {p} and not any(isinstance(x, ast.UnaryOp) and isinstance(x.op, ast.USub) for x in ast.walk(ex))
+
+                okc = stands_for(a, p1) and stands_for(b, p2) and m1 == m2 and not a.startswith("-") and not b.startswith("-")
+                chk.decide(okc, "C11.R6", f"{f.key}:antiparallel-branch:chains-from-v1-to-v2", f.where(r), f"({a} -> {m1}) then ({m2} -> {b})",
+                           f"the half turn is composed as ({a} -> {m1}) then ({m2} -> {b}); it must lead from `{p1}` through one intermediate direction to `{p2}` - for vectors that are "
+                           f"nearly but not exactly opposite the result does not take {p1} to {p2}")
             _intermediate_direction(chk, f, r, e)
         else:
             chk.note(f"C11.R6: antiparallel branch returns `{short(e, 70)}` - neither the two-rotation composition nor a recognised reflection; not decided (numerical)")
@@ -435,6 +455,14 @@ def r3_alignment(chk):
                    "the smallest RMSD and the rotation kept for it are not updated together under one `<` test: the RMSD returned is not the one of the rotation applied")
         if f.qualname.endswith("optimal_rotation_to_ref_coords"):
             ens_best = (best_r, best_m)
+            # the search starts afresh for every conformer: the kept pair is (re)initialised inside the loop over the conformers
+            cl = [l for l in walk_no_nested(f.node) if isinstance(l, ast.For) and norm(l.iter) == "self"]
+            if ok and cl and best_r and best_m:
+                inits = {nm: [s_ for s_ in walk_no_nested(f.node) if isinstance(s_, ast.Assign) and norm(s_.targets[0]) == nm and not any(x is s_ for x in ast.walk(gs[0]))] for nm in (best_r, best_m)}
+                inside = all(ss and all(any(x is s_ for x in ast.walk(cl[0])) for s_ in ss) for ss in inits.values())
+                chk.decide(inside, "C11.R3", f"{f.key}:best-pair-reset-per-conformer", f.where(cl[0]), f"{best_r}, {best_m} start afresh inside `for .. in self`",
+                           f"`{best_r}` / `{best_m}` are initialised before the loop over the conformers, not inside it: a conformer that fits worse than an earlier one keeps the earlier "
+                           "conformer's rotation and RMSD - the RMSD returned was not achieved")
         if f.qualname.endswith("Molecule.align_to_ref_coords"):
             from ..canon import Env
 
@@ -494,7 +522,7 @@ def r4_views(chk):
     ens = chk.prog.cls(f"{ENS}:ConformerEnsemble")
     c14.r3_view(sub, conf, ens)
     for o in sub.obligations:
-        if "coords" in o["construct"] or "memoised" in o["construct"]:
+        if "coords" in o["construct"] or "memoised" in o["construct"] or "parent_atom_indices" in o["construct"]:
             o = dict(o)
             o["rule"] = "C11.R4"
             chk.obligations.append(o)
